@@ -72,8 +72,9 @@ type Run struct {
 	dmu      [shards]sync.Mutex
 	distinct [shards]map[uint64]struct{}
 
-	cmu     sync.Mutex
-	current map[int]any
+	cmu       sync.Mutex
+	current   map[int]any
+	caseFiles map[int]*os.File
 }
 
 // MaxViolations is the number of violations recorded in full; later ones are only counted.
@@ -243,6 +244,33 @@ func (r *Run) Current(worker int, v any) {
 func (r *Run) CurrentSync(worker int, v any) {
 	r.Current(worker, v)
 	r.writeProgress()
+}
+
+// LogCase writes the input a worker is about to feed to code that may die with a process-fatal
+// report (sanitizer, fatal error); the runner reads the file back as the crash witness.
+func (r *Run) LogCase(worker int, data []byte) {
+	r.cmu.Lock()
+	f := r.caseFiles[worker]
+	if f == nil {
+		var err error
+		f, err = os.OpenFile(filepath.Join(r.outDir, fmt.Sprintf("case-%s-%d.bin", r.Stage, worker)), os.O_CREATE|os.O_RDWR|os.O_TRUNC, 0o644)
+		if err != nil {
+			r.cmu.Unlock()
+			return
+		}
+		if r.caseFiles == nil {
+			r.caseFiles = map[int]*os.File{}
+		}
+		r.caseFiles[worker] = f
+	}
+	r.cmu.Unlock()
+	var hdr [4]byte
+	n := len(data)
+	hdr[0], hdr[1], hdr[2], hdr[3] = byte(n), byte(n>>8), byte(n>>16), byte(n>>24)
+	if n > 1<<16 {
+		data = data[:1<<16]
+	}
+	f.WriteAt(append(hdr[:], data...), 0)
 }
 
 // Violation records a refuting observation.
